@@ -285,9 +285,19 @@ pub fn check(c: &Case) -> CheckResult {
             verify_hits(&mem, c, caller, &ar.results, "search_adaptive_acl")?;
         }
         // ---- ask (lexical and hybrid)
+        // the question's wording selects different retrieval branches inside ask (plain, analytical /
+        // comparative, aggregation, recency, update): each must enforce the ACL
+        let question = match caller.deco % 6 {
+            0 => word.clone(),
+            1 => format!("compare {word} versus the rest"),
+            2 => format!("history of {word} over time"),
+            3 => format!("how many {word} are there, list all {word}"),
+            4 => format!("what is the most recent {word} right now"),
+            _ => format!("what was {word} initially and what is it currently"),
+        };
         for mode in [AskMode::Lex, AskMode::Hybrid] {
             let req = AskRequest {
-                question: word.clone(),
+                question: question.clone(),
                 top_k,
                 snippet_chars: 120,
                 uri: None,
@@ -304,7 +314,8 @@ pub fn check(c: &Case) -> CheckResult {
                 acl_enforcement_mode: AclEnforcementMode::Enforce,
             };
             let res = if mode == AskMode::Lex { mem.ask(req, None::<&StubEmbedder>) } else { mem.ask(req, Some(&embedder)) };
-            let what = if mode == AskMode::Lex { "ask(Lex)" } else { "ask(Hybrid)" };
+            let what_s = format!("{} with question {question:?}", if mode == AskMode::Lex { "ask(Lex)" } else { "ask(Hybrid)" });
+            let what = what_s.as_str();
             if no_tenant {
                 expect_tenant_error(res, what)?;
             } else {
@@ -359,7 +370,7 @@ fn caller() -> impl Strategy<Value = Caller> {
 }
 
 pub fn build(ctx: &Ctx) -> Vec<Box<dyn Arm>> {
-    ctx.rule("corpora of 2..14 documents that all contain the query word and a unique marker, each with a structured ACL (tenant a/b/missing/blank; visibility public/restricted/unknown/missing; role/group/principal lists; one list optionally CSV-encoded = invalid) rendered into extra_metadata with generated decorations (JSON-quoted scalars, mixed case, padding), embeddings on every document; 3..5 caller contexts (tenant present/absent/blank, subject, roles, groups, decorated) x entry points search / vec_search_with_embedding_acl / search_adaptive_acl / ask(Lex) / ask(Hybrid, stub embedder); oracle (ground truth from the structured model): under Enforce no hit, context text, context fragment, citation or answer refers to a denied document; Enforce without tenant => InvalidQuery; Audit returns the same (frame, range) sequence as no context; non-trivial = the caller has both allowed and denied matching documents");
+    ctx.rule("corpora of 2..14 documents that all contain the query word and a unique marker, each with a structured ACL (tenant a/b/missing/blank; visibility public/restricted/unknown/missing; role/group/principal lists; one list optionally CSV-encoded = invalid) rendered into extra_metadata with generated decorations (JSON-quoted scalars, mixed case, padding), embeddings on every document; 3..5 caller contexts (tenant present/absent/blank, subject, roles, groups, decorated) x entry points search / vec_search_with_embedding_acl / search_adaptive_acl / ask(Lex) / ask(Hybrid, stub embedder) with the query word wrapped in six question wordings (plain, comparative, historical, aggregation, recency, update: each selects a different retrieval branch inside ask); oracle (ground truth from the structured model): under Enforce no hit, context text, context fragment, citation or answer refers to a denied document; Enforce without tenant => InvalidQuery; Audit returns the same (frame, range) sequence as no context; non-trivial = the caller has both allowed and denied matching documents");
     ctx.assume("only clearly denied frames are asserted: other tenant, restricted without any matching principal/role/group, missing/blank tenant, missing/unknown visibility, invalid list encoding");
     let t = ctx.tier;
     vec![arm_with(
